@@ -24,6 +24,10 @@ fn emit(v: serde_json::Value) {
 fn main() {
     mmsim::sut::maybe_act_as_cli_subprocess();
     mmsim::sut::init_cli_env();
+    // the CLI backends play a copy of the source from the scratch directory, where no workspace
+    // `lib/` is an ancestor: the standard library is found through the search path instead (what
+    // `~/.mimium/lib` or MIMIUM_LIB_PATH is for an installed CLI)
+    unsafe { std::env::set_var("MIMIUM_LIB_PATH", format!("{}/lib", mmsim::hotswap::repo_root())) };
     mmsim::util::install_counting_logger();
     mmsim::util::install_quiet_panic_hook();
     let args: Vec<String> = std::env::args().collect();
